@@ -38,6 +38,12 @@ class VZ(PaneBase):
     b: int = 0
 
 
+class VNn(PaneBase):
+    """a variant whose declared tag is None"""
+    t: None = None
+    a: int = 0
+
+
 class W1(PaneBase):
     k: Literal[1] = 1
     a: int = 0
@@ -69,7 +75,8 @@ SETS = {
     's': dict(tag='t', variants=(VX, VY, VZ), adj=('t', 'c')),
     'i': dict(tag='k', variants=(W1, W2), adj=('k', 'v')),
     'm': dict(tag='k', variants=(W1, WS), adj=('k', 'v')),      # tags of mixed kind: 1 and 's'
-    'a': dict(tag='t', variants=(VX, VY, VZ), adj=('type', 'data')),   # the union and tag of 's' under a SECOND adjacent key pair
+    'a': dict(tag='t', variants=(VX, VY, VZ), adj=('type', 'data')),
+    'n': dict(tag='t', variants=(VX, VNn), adj=('t', 'c')),              # one declared tag is None   # the union and tag of 's' under a SECOND adjacent key pair
 }
 LAYOUTS = {'int': False, 'ext': True, 'adj': None}
 CONV = {}
@@ -93,6 +100,21 @@ for (_ln, _ext) in LAYOUTS.items():
 
 def tag_of(sn, tk):
     """tag kinds per variant set; 1..3 are (or would be) declared tags, the rest foreign / ill-kinded"""
+    if sn == 'n':
+        if tk == 1:
+            return 'x'
+        elif tk == 2:
+            return None             # a declared tag
+        elif tk == 3 or tk == 4:
+            return 'q'
+        elif tk == 5:
+            return 1
+        elif tk == 6:
+            return 0
+        elif tk == 7:
+            return ['x']
+        else:
+            return {}
     if sn == 's' or sn == 'h' or sn == 'c' or sn == 'a':
         if tk == 1:
             return 'x' if sn != 'h' else 'hb'
@@ -131,6 +153,12 @@ def tag_of(sn, tk):
 
 def variant_of(sn, tk):
     """the variant class whose DECLARED tag equals tag kind tk, else None (reference: the class definitions above)"""
+    if sn == 'n':
+        if tk == 1:
+            return VX
+        elif tk == 2:
+            return VNn
+        return None
     if sn == 's' or sn == 'c' or sn == 'a':
         if tk == 1:
             return VX
